@@ -6,7 +6,7 @@ import random
 from core import vloop
 from e2e import common, run_e2e, runner, scenario, upstream
 
-EXPECTED = ["C01_exit0_all_stages_clean", "C01_clean_stage_all_obtained", "C01_clean_stage_sizes", "C01_packages_pool_complete", "C01_sources_pool_complete"]
+EXPECTED = ["C01_exit0_all_stages_clean", "C01_clean_stage_all_obtained", "C01_clean_stage_sizes", "C01_packages_pool_complete", "C01_sources_pool_complete", "C01_unpacked_is_obtained", "C01_legacy_stale_variant_counterexample", "C01_unobtained_not_parsed"]
 LEVEL = "proof"
 RULE = ("scenario = 1-2 random upstream repositories (1-2 codenames, 1-3 components incl. nested, 1-3 architectures, "
         "Packages/Sources/Translation/Contents/dep11/cnf indices in 1-4 compressions, by-hash on/off, 1-3 release flavours) "
@@ -319,7 +319,51 @@ def flat_one(chk, sseed):
         sb.destroy()
 
 
+def unpack_correspondence(chk, rng, n):
+    """which file the real `_unpack_index` reads, for every pattern of variant files present in skel (and after a skel clean that
+    keeps a given subset), against Model/Unpack.lean `choice`: each variant file carries its own content"""
+    import bz2
+    import gzip
+    import lzma
+    from pathlib import Path
+    from core import fsutil
+    from core.driver import driver
+    from apt_mirror.filter import PackageFilter
+    from apt_mirror.repository import PackagesParser
+    import apt_mirror.apt_mirror as am
+    comp = {"xz": (".xz", lzma.compress), "gz": (".gz", gzip.compress), "bz2": (".bz2", bz2.compress), "none": ("", lambda b: b)}
+    for i in range(n):
+        present = [c for c in comp if rng.random() < 0.5]
+        kept = None if rng.random() < 0.4 else [c for c in comp if rng.random() < 0.5]
+        top = fsutil.workdir("unpack")
+        rel = Path("dists/s/main/binary-amd64/Packages")
+        d = Path(top) / rel.parent
+        d.mkdir(parents=True)
+        for c in present:
+            ext, fn = comp[c]
+            with open(str(Path(top) / rel) + ext, "wb") as fp:
+                fp.write(fn(f"Package: from-{c}\n".encode()))
+        if kept is not None:
+            # the real skel cleaner with the kept variants' paths as needed files
+            am.PathCleaner(Path(top), {Path(str(rel) + comp[c][0]) for c in kept}).clean()
+        parser = PackagesParser(Path(top), {rel}, set(), PackageFilter())
+        target = Path(top) / rel
+        ok = parser._unpack_index(target)
+        got = None
+        if ok and target.exists():
+            txt = target.read_bytes().decode(errors="replace")
+            got = txt.split("from-")[1].strip() if "from-" in txt else "?"
+        m = driver().call("unpack_choice", present=present, kept=kept)
+        if got != m:
+            chk.violation("correspondence-unpack", {"present": present, "kept": kept, "disagreement": {"real": got, "model": m},
+                          "correspondence": "Model/Unpack.lean choice/afterSkelClean vs IndexFileParser._unpack_index + PathCleaner"},
+                          f"present {present} kept {kept}: real reads {got}, model {m}", no_input=True)
+        chk.count("unpack_patterns_compared")
+        fsutil.rmtree(top)
+
+
 def run(chk, tier, rng):
+    unpack_correspondence(chk, random.Random(f"unpack-{chk.seed}"), 64 if tier == "quick" else 400)
     for i in range(40 if tier == "quick" else 800):
         flat_one(chk, f"C01F-{chk.seed}-{i}")
     n = 160 if tier == "quick" else 3000
